@@ -129,6 +129,9 @@ func (f *impFn) assigned(nodes ...ast.Node) []string {
 					if r := callRecvRoot(s); r != "" && f.isGrpVar(r) {
 						set[r] = true
 					}
+					if r := callRecvRoot(s); r != "" && f.lookup(r) != nil && f.lookup(r).k == "bigpair" && se.Sel.Name == "Neg" {
+						set[r] = true
+					}
 				}
 			}
 			return true
@@ -437,6 +440,11 @@ func (f *impFn) simple(s ast.Stmt, prev ast.Stmt, c *ictx) []string {
 			}
 			return []string{"let " + lname(id.Name) + " := " + es}
 		}
+		if p.tg.ext && v.Tok == token.ASSIGN {
+			if lines, ok := f.frAssign(v, c); ok {
+				return lines
+			}
+		}
 		if ix, ok := v.Lhs[0].(*ast.IndexExpr); ok && v.Tok == token.ASSIGN {
 			if id, ok := ix.X.(*ast.Ident); ok {
 				if t := f.lookup(id.Name); t != nil && t.k == "slice" {
@@ -498,6 +506,28 @@ func (f *impFn) simple(s ast.Stmt, prev ast.Stmt, c *ictx) []string {
 		if f.p.tg.grp != "" {
 			if lines, ok := f.grpStmt(call, c); ok {
 				return lines
+			}
+		}
+		if f.p.tg.ext {
+			// k[i].Neg(&k[i]) on the pair returned by ecc.SplitScalar (a value owned by the function)
+			if se, ok := call.Fun.(*ast.SelectorExpr); ok && se.Sel.Name == "Neg" && len(call.Args) == 1 {
+				if ix, ok := se.X.(*ast.IndexExpr); ok {
+					if id, ok := ix.X.(*ast.Ident); ok && f.lookup(id.Name) != nil && f.lookup(id.Name).k == "bigpair" {
+						u, ok := call.Args[0].(*ast.UnaryExpr)
+						if !ok || u.Op != token.AND || exprText(u.X) != exprText(ix) {
+							p.die(s, "Neg on the split pair (only k[i].Neg(&k[i]))")
+						}
+						n := litInt(ix.Index)
+						if n == nil || (n.Int64() != 0 && n.Int64() != 1) {
+							p.die(s, "index of the split pair")
+						}
+						k := lname(id.Name)
+						if n.Int64() == 0 {
+							return []string{"let " + k + " := (-(" + k + ".1), " + k + ".2)"}
+						}
+						return []string{"let " + k + " := (" + k + ".1, -(" + k + ".2))"}
+					}
+				}
 			}
 		}
 		if se, ok := call.Fun.(*ast.SelectorExpr); ok {
@@ -1612,4 +1642,58 @@ func (f *impFn) bigArg(a ast.Expr, c *ictx) (string, *ity) {
 		f.p.die(a, "& of something that is not a local big.Int value")
 	}
 	return f.expr(a, nil, c)
+}
+
+// `X = X.SetBigInt(&K).Bits()` with X an fr.Element variable or an element of a local array of them: X receives the words of the
+// non-Montgomery representative of K mod r (parameter `frBits`; SetBigInt overwrites its receiver, so the old value of X is not read)
+func (f *impFn) frAssign(v *ast.AssignStmt, c *ictx) ([]string, bool) {
+	p := f.p
+	bits, ok := v.Rhs[0].(*ast.CallExpr)
+	if !ok {
+		return nil, false
+	}
+	se, ok := bits.Fun.(*ast.SelectorExpr)
+	if !ok || se.Sel.Name != "Bits" || len(bits.Args) != 0 {
+		return nil, false
+	}
+	set, ok := se.X.(*ast.CallExpr)
+	if !ok {
+		return nil, false
+	}
+	se2, ok := set.Fun.(*ast.SelectorExpr)
+	if !ok || se2.Sel.Name != "SetBigInt" || len(set.Args) != 1 {
+		return nil, false
+	}
+	if exprText(se2.X) != exprText(v.Lhs[0]) {
+		p.die(v, "X = Y.SetBigInt(…).Bits() with X ≠ Y (Y would keep the Montgomery form)")
+	}
+	var ks string
+	var kt *ity
+	if u, ok := set.Args[0].(*ast.UnaryExpr); ok && u.Op == token.AND {
+		if id, ok := u.X.(*ast.Ident); ok && f.bigLocal[id.Name] {
+			ks, kt = f.expr(id, nil, c)
+		} else if _, ok := u.X.(*ast.IndexExpr); ok {
+			ks, kt = f.expr(u.X, nil, c)
+		}
+	} else {
+		ks, kt = f.expr(set.Args[0], nil, c)
+	}
+	if kt == nil || kt.k != "bigint" {
+		p.die(v, "SetBigInt argument")
+	}
+	val := "frBits " + parenImp(ks)
+	switch l := v.Lhs[0].(type) {
+	case *ast.Ident:
+		if t := f.lookup(l.Name); t != nil && t.k == "frel" {
+			return []string{"let " + lname(l.Name) + " := " + val}, true
+		}
+	case *ast.IndexExpr:
+		if id, ok := l.X.(*ast.Ident); ok {
+			if t := f.lookup(id.Name); t != nil && t.k == "array" && t.elem.k == "frel" {
+				return []string{"let " + lname(id.Name) + " := arrSet " + lname(id.Name) + " " + parenImp(f.natIndex(l.Index, c)) + " " + parenImp(val)}, true
+			}
+		}
+	}
+	p.die(v, "fr.Element assignment target")
+	return nil, false
 }
